@@ -118,11 +118,55 @@ func (vc *VC) evalCall(st *State, call *ast.CallExpr) Val {
 	if fi == nil {
 		return vc.externalCall(st, fn, recv, args, call)
 	}
-	if fi.Spec != nil {
+	passesClosure := false
+	for _, a := range args {
+		if fv, ok := a.(*FuncV); ok && fv.Lit != nil {
+			passesClosure = true
+		}
+	}
+	if fi.Spec != nil && !(passesClosure && fi.Decl.Body != nil && !fi.Spec.Trusted) {
 		vc.callLockCheck(st, fi, recv, call.Pos())
 		return vc.callModular(st, fi, fi.Spec, recv, args, call.Pos(), fi.Key)
 	}
+	// a call that passes a function literal is inlined even if the callee has a contract: the literal's
+	// effects are part of this function, and the callee's contract of the parameter would hide them
+	sub := vc.typeArgSubst(fn, selInfo, recvExpr)
+	vc.tsubst = append(vc.tsubst, sub)
+	defer func() { vc.tsubst = vc.tsubst[:len(vc.tsubst)-1] }()
 	return vc.inlineCall(st, fi, recv, args, call)
+}
+
+// typeArgSubst: for a method of a generic type invoked on a receiver whose type arguments are known, the
+// mapping from the method's receiver type parameters to those arguments.
+func (vc *VC) typeArgSubst(fn *types.Func, selInfo *types.Selection, recvExpr ast.Expr) map[*types.TypeParam]types.Type {
+	sub := map[*types.TypeParam]types.Type{}
+	if recvExpr == nil {
+		return sub
+	}
+	rt := vc.typeOf(recvExpr)
+	if p, ok := rt.Underlying().(*types.Pointer); ok {
+		rt = p.Elem()
+	}
+	if p, ok := rt.(*types.Pointer); ok {
+		rt = p.Elem()
+	}
+	named, ok := rt.(*types.Named)
+	if !ok || named.TypeArgs() == nil {
+		return sub
+	}
+	sig := fn.Origin().Type().(*types.Signature)
+	rtps := sig.RecvTypeParams()
+	if rtps == nil {
+		return sub
+	}
+	for i := 0; i < rtps.Len() && i < named.TypeArgs().Len(); i++ {
+		arg := vc.ts(named.TypeArgs().At(i))
+		if atp, ok := arg.(*types.TypeParam); ok && atp == rtps.At(i) {
+			continue
+		}
+		sub[rtps.At(i)] = arg
+	}
+	return sub
 }
 
 // evalReceiver evaluates a method receiver, taking the address of addressable struct values for
@@ -1042,7 +1086,7 @@ func (vc *VC) runBody(st *State, fi *FuncInfo, lit *ast.FuncLit, ftype *ast.Func
 	// results
 	if ftype.Results != nil {
 		for _, f := range ftype.Results.List {
-			t := info.TypeOf(f.Type)
+			t := vc.ts(info.TypeOf(f.Type))
 			if len(f.Names) == 0 {
 				v := types.NewVar(token.NoPos, vc.pkg, "ret$", t)
 				fr.results = append(fr.results, v)
